@@ -38,10 +38,20 @@ def main(argv=None):
     except MachineryFailure as e:
         print(f"MACHINERY FAILURE in {pid}: {e}", file=sys.stderr)
         return 2
-    except Exception:  # noqa: BLE001
-        traceback.print_exc()
-        print(f"MACHINERY FAILURE in {pid} (harness exception)", file=sys.stderr)
-        return 2
+    except Exception as e:  # noqa: BLE001
+        # An exception that escapes from repository code at a point where the harness expects the call to succeed (the
+        # specification says it does) is an observation about the library, not a failure of the machinery.
+        from .core import REPO
+        tb = traceback.extract_tb(e.__traceback__)
+        lib_frames = [f for f in tb if f.filename.startswith(os.path.join(REPO, "conda_content_trust") + os.sep)]
+        if not lib_frames:
+            traceback.print_exc()
+            print(f"MACHINERY FAILURE in {pid} (harness exception)", file=sys.stderr)
+            return 2
+        harness_frames = [f for f in tb if "cctverif" in f.filename]
+        where = harness_frames[-1].name if harness_frames else "?"
+        run.violation(f"library function {lib_frames[0].name} raised {type(e).__name__} where the specification expects it to succeed (harness step {where})",
+                      {"kind": "unexpected_exception", "traceback": traceback.format_exception(e)[-12:]})
     return run.finish()
 
 
